@@ -12,6 +12,9 @@ import (
 func propertyProviders(e *Engine, P string, tier string) []*Job {
 	var jobs []*Job
 	jobs = append(jobs, tableJobs(e, P)...)
+	if P == "C08" {
+		jobs = append(jobs, castJoinJobs(e)...)
+	}
 	if P == "C19" || P == "C02" {
 		jobs = append(jobs, globalFrameJobs(e, P)...)
 	}
